@@ -27,8 +27,9 @@ try:
             shutil.copytree(f'/repo/{d}', t / d, symlinks=True, ignore=shutil.ignore_patterns('__pycache__'))
     p = t / file
     s = p.read_text(encoding='utf-8')
-    old = old.encode().decode('unicode_escape') if '\\n' in old else old
-    new = new.encode().decode('unicode_escape') if '\\n' in new else new
+    if not os.environ.get('MUT_RAW'):
+        old = old.encode().decode('unicode_escape') if '\\n' in old else old
+        new = new.encode().decode('unicode_escape') if '\\n' in new else new
     n = s.count(old)
     if n == 0 or (n > 1 and nth is None):
         sys.exit(f'OLD occurs {n} times in {file}')
